@@ -459,7 +459,17 @@ func c31(c *report.Check, thorough bool, only string) {
 		}
 	}
 	sort.SliceStable(sjs, func(i, j int) bool { return sjs[i].d > sjs[j].d })
-	orderedParallel(len(sjs), func(i int) func() {
+	solverBudget := 90 * time.Second
+	if thorough {
+		solverBudget = 5 * time.Minute
+	}
+	hung := func(i int) {
+		j := sjs[i]
+		evalD++
+		rep.viol(fmt.Sprintf("c31:solver:no-proof-produced:d%d", j.d), fmt.Sprintf("GenerateSolution(difficulty %d, %s) did not return within %v (about 2^%d hashes expected)", j.d, j.st.name, solverBudget, j.d),
+			map[string]any{"difficulty": j.d, "style": j.st.name, "key": j.key})
+	}
+	guardedParallel(len(sjs), solverBudget, hung, func(i int) func() {
 		j := sjs[i]
 		_, priv := seedKey(j.key)
 		params := pow.Parameters{Difficulty: j.d, Expires: powExpires, GetSubject: j.st.subjectOf}
@@ -484,18 +494,28 @@ func c31(c *report.Check, thorough bool, only string) {
 		}
 	})
 	// plain hashcash solver → plain verifier
-	for d := 1; d <= solveMax; d++ {
-		hc := hashcash.New(hashcash.Hashcash{Subject: "plain.example.org", Difficulty: d, Nonce: "p" + strconv.Itoa(d), ExpiresAt: vtime.T0.Add(time.Minute)})
+	guardedParallel(solveMax, solverBudget, func(i int) {
 		evalD++
+		rep.viol(fmt.Sprintf("c31:hashsolve:no-termination:d%d", i+1), fmt.Sprintf("Hashcash.Solve(difficulty %d) did not return within %v", i+1, solverBudget), map[string]any{"difficulty": i + 1})
+	}, func(i int) func() {
+		d := i + 1
+		hc := hashcash.New(hashcash.Hashcash{Subject: "plain.example.org", Difficulty: d, Nonce: "p" + strconv.Itoa(d), ExpiresAt: vtime.T0.Add(time.Minute)})
 		if err := hc.Solve(d); err != nil {
-			rep.viol(fmt.Sprintf("c31:hashsolve:d%d", d), "Solve failed: "+err.Error(), map[string]any{"difficulty": d})
-			continue
+			return func() {
+				evalD++
+				rep.viol(fmt.Sprintf("c31:hashsolve:d%d", d), "Solve failed: "+err.Error(), map[string]any{"difficulty": d})
+			}
 		}
-		back, perr := hashcash.Parse(hc.String())
-		if perr != nil || back.Verify("plain.example.org") != nil || hc.Verify("plain.example.org") != nil || stampLZ(hc.String()) < d {
-			rep.viol(fmt.Sprintf("c31:hashsolve:d%d", d), fmt.Sprintf("Solve output %q not accepted by Verify (parse err %v, leading zero bits %d)", hc.String(), perr, stampLZ(hc.String())), map[string]any{"difficulty": d})
+		str := hc.String()
+		back, perr := hashcash.Parse(str)
+		bad := perr != nil || back.Verify("plain.example.org") != nil || hc.Verify("plain.example.org") != nil || stampLZ(str) < d
+		return func() {
+			evalD++
+			if bad {
+				rep.viol(fmt.Sprintf("c31:hashsolve:d%d", d), fmt.Sprintf("Solve output %q not accepted by Verify (parse err %v, leading zero bits %d)", str, perr, stampLZ(str)), map[string]any{"difficulty": d})
+			}
 		}
-	}
+	})
 	sort.Ints(solverRefused)
 
 	if accepted == 0 {
@@ -519,7 +539,8 @@ func c31(c *report.Check, thorough bool, only string) {
 	c.Assume("spec/pow and util/hashcash read the clock through the harness clock (import rewrite of \"time\"); the clock is frozen at 2030-01-02T03:04:05Z and moved by exact offsets",
 		"allowed expiry window = 2 x Parameters.Expires ahead of now (the bound spec/pow applies; the statement does not give a number); expired = now strictly after the expiry second",
 		"crypto/ed25519 and crypto/sha256 are trusted; 'stamp hash' = SHA-256 of the presented stamp text",
-		"GenerateSolution refuses difficulty 0 (hashcash.New turns 0 into 10, Solve(0) rejects it): no proof is produced, so the solver clause is vacuous there")
+		"GenerateSolution refuses difficulty 0 (hashcash.New turns 0 into 10, Solve(0) rejects it): no proof is produced, so the solver clause is vacuous there",
+		"hang guard: a solver call that does not return within 90 s (thorough 5 min; normal cost is milliseconds) is reported as producing no proof instead of blocking the check")
 }
 
 func uniqInts(s []int) []int {
